@@ -105,15 +105,18 @@ type c48lCase struct {
 func c48lAsk(chain *core.BlockChain, roots []common.Hash, count map[string]int) error {
 	hx, hz, hy := crypto.Keccak256Hash(c48lX[:]), crypto.Keccak256Hash(c48lZ[:]), crypto.Keccak256Hash(c48lY[:])
 	for back, root := range roots {
-		tr, err := c48ReadTruth(chain, root)
+		tr, err := c48ReadTruthOpt(chain, root, false)
 		if err != nil {
 			return fmt.Errorf("harness: truth at head-%d: %v", back, err)
 		}
 		mid := tr.accts[len(tr.accts)/2].hash
-		for _, q := range []struct {
+		for qi, q := range []struct {
 			origin common.Hash
 			budget uint64
-		}{{common.Hash{}, 1_000_000}, {common.Hash{}, 100}, {mid, 1_000_000}, {mid, 100}} {
+		}{{common.Hash{}, 1_000_000}, {mid, 100}, {common.Hash{}, 100}, {mid, 1_000_000}} {
+			if back > 0 && qi >= 2 {
+				break // the older root gets half of the request set
+			}
 			req := &GetAccountRangePacket{ID: 1, Root: root, Origin: q.origin, Limit: common.MaxHash, Bytes: q.budget}
 			accs, proof := ServiceGetAccountRangeQuery(chain, req)
 			out, err := c48CheckAccounts(tr, root, q.origin, common.MaxHash, q.budget, accs, proof)
@@ -126,12 +129,15 @@ func c48lAsk(chain *core.BlockChain, roots []common.Hash, count map[string]int) 
 		if sx := tr.storage[hx]; len(sx) > 1 {
 			xMid = common.CopyBytes(sx[len(sx)/2].hash[:])
 		}
-		for _, q := range []struct {
+		for qi, q := range []struct {
 			accounts []common.Hash
 			origin   []byte
 			budget   uint64
-		}{{[]common.Hash{hx}, nil, 1_000_000}, {[]common.Hash{hx}, nil, 100}, {[]common.Hash{hx}, xMid, 1_000_000}, {[]common.Hash{hz}, nil, 1_000_000},
-			{[]common.Hash{hx, hz}, nil, 1_000_000}, {[]common.Hash{hz, hx}, nil, 300}, {[]common.Hash{hy}, nil, 1_000_000}} {
+		}{{[]common.Hash{hx}, nil, 1_000_000}, {[]common.Hash{hx}, nil, 100}, {[]common.Hash{hx}, xMid, 1_000_000}, {[]common.Hash{hx, hz}, nil, 1_000_000},
+			{[]common.Hash{hz}, nil, 1_000_000}, {[]common.Hash{hz, hx}, nil, 300}, {[]common.Hash{hy}, nil, 1_000_000}} {
+			if back > 0 && qi >= 4 {
+				break
+			}
 			req := &GetStorageRangesPacket{ID: 1, Root: root, Accounts: append([]common.Hash{}, q.accounts...), Origin: common.CopyBytes(q.origin), Bytes: q.budget}
 			slots, proof := ServiceGetStorageRangesQuery(chain, req)
 			out, _, err := c48CheckStorage(tr, q.accounts, q.origin, nil, q.budget, slots, proof)
@@ -152,7 +158,7 @@ func TestVerif_C48_live(t *testing.T) {
 	mc.Run(t, "C48", func(r *mc.R) {
 		depth := mc.Pick(r, 4, 5)
 		r.Rule("per scheme {hash + snapshot, path}: every sequence of `depth` blocks over the per-block operations {empty, X adds a slot, X modifies a slot, X deletes a slot, Z adds a slot and a new account is funded, Y self-destructs} on a chain whose state-layer caps are scaled to 1 (one diff layer above the accumulator / disk layer), so that every imported block flattens the previous block's layer downwards; " +
-			"x request schedules {only after the last block, additionally after block i for one i, after every block}; a request set = 4 account-range and 7 storage-range requests (X whole / small budget / from the middle, Z, [X,Z], [Z,X] with budget, Y) against the roots of the last two blocks, judged by the oracle of the static step (truth read from the trie at that root, client verification); distinct = (scheme, ops, schedule)")
+			"x request schedules {only after the last block, additionally after block i for one i, after every block}; a request set = 4 account-range and 7 storage-range requests (X whole / small budget / from the middle, Z, [X,Z], [Z,X] with budget, Y) against the root of the last block and (half of the set) of the block before, judged by the oracle of the static step (truth read from the trie at that root, client verification); distinct = (scheme, ops, schedule)")
 		r.Assume("state.TriesInMemory and pathdb.maxDiffLayers are re-valued to 1 for this step by the instrumenter (checked at run time); the unscaled constants are exercised by the static step, which never flattens")
 		r.Bound("blocks", depth)
 		r.Bound("ops", c48lOps)
